@@ -16,6 +16,19 @@ Theorem C19_scan_print : forall r : tpl,
 Proof. exact scan_print. Qed.
 Print Assumptions C19_scan_print.
 
+(* the explicit fuel of the two re-scanning loops of the model (length + 1) is never exhausted, on
+   any byte string: more fuel gives the same result *)
+Theorem C19_scan_fuel : forall (s : str) (f : nat) (st : scan_st),
+  length s < f ->
+  scan_loop f s (find_from LB s 0) st = scan_loop (S (length s)) s (find_from LB s 0) st.
+Proof. exact scan_fuel_irrelevant. Qed.
+Print Assumptions C19_scan_fuel.
+
+Theorem C19_contains_fuel : forall (f1 f2 : nat) (s : str) (found : bool),
+  length s <= f1 -> length s <= f2 -> cn_outer f1 s found = cn_outer f2 s found.
+Proof. exact contains_fuel_irrelevant. Qed.
+Print Assumptions C19_contains_fuel.
+
 (* D11: without that premise it is false — "braces {{{name}}} end" with 7 *)
 Theorem C19_scan_adj_refuted :
   wf_tpl d11_tpl = true /\ ok_adj d11_tpl = false /\
